@@ -584,7 +584,7 @@ def check_contract(con: Contract, rep: Report, engine=None, crosscheck=True, kno
             regions = []
             if known:
                 for kf in known:
-                    if kf["function"] == con.name and kf.get("exit", p.kind) == p.kind:
+                    if kf.get("function") == con.name and "region_fn" in kf and kf.get("exit", p.kind) == p.kind:
                         regions.append(kf)
             extra = []
             for kf in regions:
